@@ -219,8 +219,10 @@ def run(ctx, out):
     out.samples = [dict(level='FL', mapping={str(h): s for h, s in cases[0][0].items()})]
     out.assumptions += ['numpy.linalg.solve in binary64 agrees with the exact solution within 1e-9*(1+max|t|) on the '
                         'generated well-conditioned systems (tested, not proved)',
-                        'completeness of Gauss-Jordan elimination in the model is not proved (a failure would show as a '
-                        'correspondence disagreement)']
+                        'completeness of the model\'s exact solver is proved (C05_find_offsets_complete: dict with distinct '
+                        'intervals per level, connected overlap graph); nothing is proved about the conditioning or the '
+                        'pivoting of the floating-point LAPACK solve: an ill-conditioned connected system on which numpy '
+                        'fails or drifts beyond the tolerance shows as a correspondence disagreement, not as a theorem']
 
 
 def replay(case, out):
